@@ -186,11 +186,20 @@ Proof.
   cbn [fst]. intros H. inversion H; subst. repeat split; lia.
 Qed.
 
+Lemma unpack_list_first hp d r body q p m m' p' :
+  match d with U8 _ | U32 _ => True | Var _ _ _ => False end ->
+  fst (unpack_list hp (d :: r) body q p m) = UOk m' p' -> p + 1 <= q.
+Proof.
+  destruct d as [f|f|? ? ?]; intros T H; [| |destruct T]; cbn [unpack_list] in H.
+  - destruct (p + 1 >? q) eqn:C; [discriminate|lia].
+  - destruct (p + 4 >? q) eqn:C; [discriminate|lia].
+Qed.
+
 Lemma unpack_first_field lim hp t body q m m' p' : t <> T_HDR ->
   fst (unpack_list hp (unpack_fields_g lim t) body q 0 m) = UOk m' p' -> 1 <= q.
 Proof.
-  intros NH H. destruct t; [congruence|..]; cbn [unpack_fields_g unpack_list] in H.
-  all: match type of H with fst (if ?c then _ else _) = _ => destruct c eqn:C; [discriminate|lia] end.
+  intros NH H. destruct t; [congruence|..]; cbn [unpack_fields_g] in H;
+    (eapply unpack_list_first in H; [lia|exact I]).
 Qed.
 
 Lemma code_of_not_undef t : code_of t <> mt_undef.
@@ -293,3 +302,232 @@ Proof.
   - left. split; [exact A|]. rewrite B. subst m2. rewrite bv_setb_other by exact NB. rewrite B1. exact FB.
   - right. exists l. repeat split; auto; lia.
 Qed.
+
+(* ================================================================================================== *)
+(*  3. m_msg_client_xfer: the retry loop ends in the first response that m_msg_recv accepts, or an error  *)
+(* ================================================================================================== *)
+Lemma send_err_codes hp code m maxlen e :
+  send hp code m maxlen = SErr e -> e = e_snafu \/ e = e_no_memory \/ e = e_bad_length.
+Proof.
+  unfold send. destruct (type_of_code code) as [t|]; [|intros H; inversion H; auto].
+  destruct (msg_length t m <=? 0); [intros H; inversion H; auto|].
+  destruct (negb (hp (msg_length t m))); [intros H; inversion H; auto|].
+  destruct (pack_list (pack_fields t) _ 0 (msg_length t m)) as [body | | ]; [|intros H; inversion H; auto|discriminate].
+  destruct (Z.of_nat (length body) <? msg_length t m); [discriminate|].
+  destruct ((0 <? maxlen) && (msg_length t m >? maxlen)); [intros H; inversion H; auto|].
+  destruct (pack_list (pack_fields T_HDR) _ 0 _); [discriminate|intros H; inversion H; auto|discriminate].
+Qed.
+
+Lemma err_codes_nonzero e :
+  e = e_snafu \/ e = e_no_memory \/ e = e_bad_length \/ e = e_socket -> e <> 0%N.
+Proof. intros [-> | [-> | [-> | ->]]]; vm_compute; discriminate. Qed.
+
+Lemma nth_tl {A} k (l : list A) d : nth k (tl l) d = nth (S k) l d.
+Proof. destruct l; [destruct k; reflexivity|reflexivity]. Qed.
+Lemma nth_0_hd {A} (l : list A) d : nth 0 l d = hd d l.
+Proof. destruct l; reflexivity. Qed.
+
+(* what an outcome of the transfer means in terms of the peer's answers *)
+Definition xfer_spec (lim : N) (hp : Z -> bool) (exptype : N) (peer : list bytes) (bound : nat) (r : xres) : Prop :=
+  match r with
+  | XRsp m => exists k, (k < bound)%nat
+                        /\ fst (recv_g lim hp (nth k peer []) exptype xfer_recv_maxlen msg0) = ROk m
+  | XRspErr e _ | XReqErr e => e <> 0%N
+  | XFault => False
+  end.
+
+Lemma xfer_loop_spec lim hp exptype code mreq :
+  (lim <= sizeof_addr)%N ->
+  (forall r, send hp code (setn mreq Nretry r) xfer_send_maxlen <> SFault) ->
+  forall fuel i peer, xfer_spec lim hp exptype peer fuel (fst (xfer_loop lim hp exptype code mreq fuel i peer)).
+Proof.
+  intros HL HS. induction fuel as [|fuel IH]; intros i peer; cbn [xfer_loop].
+  - cbn. vm_compute; discriminate.
+  - destruct (send hp code (setn mreq Nretry (i - 1)%N) xfer_send_maxlen) as [wire | e | ] eqn:SE.
+    + destruct (recv_total_bounded lim hp (hd [] peer) exptype xfer_recv_maxlen msg0 HL) as [F _].
+      destruct (fst (recv_g lim hp (hd [] peer) exptype xfer_recv_maxlen msg0)) as [m|e m|m] eqn:RE.
+      * cbn. exists 0%nat. split; [lia|]. rewrite nth_0_hd. exact RE.
+      * assert (NZ : e <> 0%N).
+        { destruct F as [(?&?)|(e'&m'&EQ&C)]; [discriminate|]. inversion EQ; subst.
+          apply err_codes_nonzero. tauto. }
+        destruct ((xfer_attempts <=? i)%N || (e =? e_bad_length)%N); [exact NZ|].
+        cbn [fst]. specialize (IH (i + 1)%N (tl peer)).
+        destruct (fst (xfer_loop lim hp exptype code mreq fuel (i + 1)%N (tl peer))); cbn in IH |- *; try exact IH.
+        destruct IH as (k & K & R). exists (S k). split; [lia|]. rewrite <- nth_tl. exact R.
+      * exfalso. destruct F as [(?&?)|(?&?&?&?)]; discriminate.
+    + assert (NZ : e <> 0%N) by (apply err_codes_nonzero; destruct (send_err_codes _ _ _ _ _ SE) as [?|[?|?]]; tauto).
+      destruct ((xfer_attempts <=? i)%N || (e =? e_bad_length)%N); [exact NZ|].
+      cbn [fst]. specialize (IH (i + 1)%N (tl peer)).
+      destruct (fst (xfer_loop lim hp exptype code mreq fuel (i + 1)%N (tl peer))); cbn in IH |- *; try exact IH.
+      destruct IH as (k & K & R). exists (S k). split; [lia|]. rewrite <- nth_tl. exact R.
+    + exfalso. exact (HS _ SE).
+Qed.
+
+Lemma xfer_g_spec lim hp ex code mreq peer :
+  (lim <= sizeof_addr)%N ->
+  (forall r, send hp code (setn mreq Nretry r) xfer_send_maxlen <> SFault) ->
+  match ex code with
+  | None => fst (xfer_g lim hp ex code mreq peer) = XReqErr e_snafu
+  | Some exptype => xfer_spec lim hp exptype peer (N.to_nat xfer_attempts) (fst (xfer_g lim hp ex code mreq peer))
+  end.
+Proof.
+  intros HL HS. unfold xfer_g. destruct (ex code) as [exptype|]; [|reflexivity].
+  apply xfer_loop_spec; assumption.
+Qed.
+
+(* ================================================================================================== *)
+(*  4. munge_decode / munge_encode: an error that hands nothing to the caller, or exactly the members of  *)
+(*     a well-formed message of the expected type carried by one of the peer's answers                  *)
+(* ================================================================================================== *)
+Definition dec_result_ok (peer : list bytes) (r : dres) : Prop :=
+  (d_err r <> 0%N /\ exists s, r = dec_fail (d_err r) s)
+  \/ (exists k m, (k < N.to_nat xfer_attempts)%nat /\ carries_msg T_DEC_RSP (nth k peer []) m /\ r = dec_out m).
+
+Definition enc_result_ok (peer : list bytes) (r : eres) : Prop :=
+  (e_err r <> 0%N /\ exists s, r = enc_fail (e_err r) s)
+  \/ (exists k m, (k < N.to_nat xfer_attempts)%nat /\ carries_msg T_ENC_RSP (nth k peer []) m
+                  /\ nv m Ndata_len <> 0%N /\ r = enc_out m).
+
+Lemma snafu_nonzero : e_snafu <> 0%N.
+Proof. vm_compute; discriminate. Qed.
+
+Theorem client_decode_wf lim hp ex acc cred peer :
+  (lim <= sizeof_addr)%N ->
+  (forall x, ex mt_dec_req = Some x -> x = mt_dec_rsp) ->
+  (forall r, send hp mt_dec_req (setn (dec_req cred) Nretry r) xfer_send_maxlen <> SFault) ->
+  exists r, fst (client_decode_g lim hp ex acc cred peer) = Some r /\ dec_result_ok peer r.
+Proof.
+  intros HL EX HS. unfold client_decode_g. cbn [fst].
+  pose proof (xfer_g_spec lim hp ex mt_dec_req (dec_req cred) peer HL HS) as X.
+  destruct (ex mt_dec_req) as [x|] eqn:EE.
+  2:{ rewrite X. eexists. split; [reflexivity|]. left. split; [exact snafu_nonzero|eexists; reflexivity]. }
+  rewrite (EX x eq_refl) in X.
+  destruct (fst (xfer_g lim hp ex mt_dec_req (dec_req cred) peer)) as [m | e m | e | ]; cbn in X.
+  - destruct X as (k & K & R). eexists. split; [reflexivity|].
+    unfold decode_rsp. destruct (acc (nv m Ntype)).
+    + right. exists k, m. split; [exact K|]. split; [|reflexivity].
+      apply (recv_ok_carries lim hp _ T_DEC_RSP xfer_recv_maxlen m); [discriminate|exact R].
+    + left. split; [exact snafu_nonzero|eexists; reflexivity].
+  - eexists. split; [reflexivity|]. left. split; [exact X|eexists; reflexivity].
+  - eexists. split; [reflexivity|]. left. split; [exact X|eexists; reflexivity].
+  - contradiction.
+Qed.
+
+Theorem client_encode_wf lim hp ex acc mreq peer :
+  (lim <= sizeof_addr)%N ->
+  (forall x, ex mt_enc_req = Some x -> x = mt_enc_rsp) ->
+  (forall r, send hp mt_enc_req (setn mreq Nretry r) xfer_send_maxlen <> SFault) ->
+  exists r, fst (client_encode_g lim hp ex acc mreq peer) = Some r /\ enc_result_ok peer r.
+Proof.
+  intros HL EX HS. unfold client_encode_g. cbn [fst].
+  pose proof (xfer_g_spec lim hp ex mt_enc_req mreq peer HL HS) as X.
+  destruct (ex mt_enc_req) as [x|] eqn:EE.
+  2:{ rewrite X. eexists. split; [reflexivity|]. left. split; [exact snafu_nonzero|eexists; reflexivity]. }
+  rewrite (EX x eq_refl) in X.
+  destruct (fst (xfer_g lim hp ex mt_enc_req mreq peer)) as [m | e m | e | ]; cbn in X.
+  - destruct X as (k & K & R). eexists. split; [reflexivity|].
+    unfold encode_rsp. destruct (acc (nv m Ntype)); cbn [negb].
+    + destruct (nv m Ndata_len =? 0)%N eqn:DL.
+      * left. split; [exact snafu_nonzero|eexists; reflexivity].
+      * right. exists k, m. split; [exact K|]. split; [|split; [lia|reflexivity]].
+        apply (recv_ok_carries lim hp _ T_ENC_RSP xfer_recv_maxlen m); [discriminate|exact R].
+    + left. split; [exact snafu_nonzero|eexists; reflexivity].
+  - eexists. split; [reflexivity|]. left. split; [exact X|eexists; reflexivity].
+  - eexists. split; [reflexivity|]. left. split; [exact X|eexists; reflexivity].
+  - contradiction.
+Qed.
+
+(* the requests _decode_req builds are sendable: no fault for any credential string *)
+Lemma wrap32_add_wrap a b : wrap32 (a + wrap32 b) = wrap32 (a + b).
+Proof. unfold wrap32, two31, two32. lia. Qed.
+
+Lemma dec_req_no_fault hp cred r maxlen : send hp mt_dec_req (setn (dec_req cred) Nretry r) maxlen <> SFault.
+Proof.
+  unfold send. change (type_of_code mt_dec_req) with (Some T_DEC_REQ). cbv beta iota.
+  set (m := setn (dec_req cred) Nretry r).
+  set (n := msg_length T_DEC_REQ m).
+  rewrite pack_hdr.
+  destruct (n <=? 0) eqn:C0; [discriminate|].
+  destruct (negb (hp n)); [discriminate|].
+  set (L := (N.of_nat (length cred) + 1)%N).
+  assert (NE : n = wrap32 (4 + to_int L)).
+  { subst n. unfold msg_length. cbn [len_fields sum_sizes fold_right fsize]. change (nv m Ndata_len) with L.
+    unfold to_int. rewrite wrap32_add_wrap. f_equal. lia. }
+  assert (PK : pack_list (pack_fields T_DEC_REQ) (stamp m mt_dec_req n) 0 n =
+    if 0 + 4 >? n then PErr
+    else papp (be32 L)
+           (if to_int L <? 0 then PErr
+            else if to_int L =? 0 then POk []
+            else if 0 + 4 + to_int L >? n then PErr
+            else match src_bytes (stamp m mt_dec_req n) Bdata Heap (to_int L) with
+                 | None => PFault
+                 | Some s => papp s (POk [])
+                 end)) by reflexivity.
+  rewrite PK. clear PK.
+  destruct (0 + 4 >? n) eqn:C1; [discriminate|].
+  destruct (to_int L <? 0) eqn:C2; [cbn; discriminate|].
+  pose proof (wrap32_le (4 + to_int L) ltac:(lia)) as WL. rewrite <- NE in WL.
+  destruct (to_int L =? 0) eqn:C3.
+  { cbn [papp]. rewrite app_nil_r, be32_length.
+    destruct (Z.of_nat 4 <? n) eqn:C6; [lia|]. destruct ((0 <? maxlen) && (n >? maxlen)); discriminate. }
+  destruct (0 + 4 + to_int L >? n) eqn:C4; [cbn; discriminate|].
+  unfold src_bytes. change (bv (stamp m mt_dec_req n) Bdata) with (Some (cred ++ [x00])). cbv beta iota.
+  assert (LL : Z.of_nat (length (cred ++ [x00])) = Z.of_N L).
+  { rewrite app_length. cbn. subst L. lia. }
+  pose proof (to_int_le L) as TL.
+  destruct (Z.of_nat (length (cred ++ [x00])) <? to_int L) eqn:C5; [lia|].
+  cbn [papp]. rewrite app_nil_r.
+  match goal with |- context [Z.of_nat (length ?b) <? n] => set (body := b) end.
+  assert (BL : Z.of_nat (length body) = 4 + to_int L).
+  { subst body. rewrite app_length, be32_length, firstn_length. lia. }
+  destruct (Z.of_nat (length body) <? n) eqn:C6; [lia|].
+  destruct ((0 <? maxlen) && (n >? maxlen)); discriminate.
+Qed.
+
+(* _msg_unpack followed by _msg_pack of what it left: the bytes consumed *)
+Theorem unpack_then_pack lim hp t body m m' p' :
+  fst (msg_unpack_g lim hp (code_of t) body (Z.of_nat (length body)) m) = UOk m' p' ->
+  0 <= p' <= Z.of_nat (length body)
+  /\ pack_list (pack_fields t) m' 0 (Z.of_nat (length body)) = POk (firstn (Z.to_nat p') body).
+Proof.
+  intros E. apply msg_unpack_ok_inv in E. destruct E as (t2 & T2 & U).
+  rewrite type_of_code_of in T2. inversion T2; subst t2.
+  destruct (unpack_list_pack hp (unpack_fields_g lim t) body _ (Z.le_refl _) [] [] 0 m m' p' (tables_order lim t)
+              (Z.le_refl 0) U) as (P0 & P1 & PK).
+  split; [lia|]. rewrite (pack_list_tables lim), PK. unfold sub. rewrite Z.sub_0_r. reflexivity.
+Qed.
+
+(* ================================================================================================== *)
+(*  5. without the expected type (m_msg_recv (mrsp, MUNGE_MSG_UNDEF, 0)): refuted                        *)
+(* ================================================================================================== *)
+(* header of type HDR whose 11-byte body is a packed header naming DEC_RSP: the body unpacker rewrites m->type,
+   the sanity check of _decode_rsp then sees DEC_RSP although no member of a DEC_RSP was ever unpacked *)
+Definition nested_attack : bytes := hdr_bytes mt_hdr 0 (Z.of_N msg_hdr_size) ++ hdr_bytes mt_dec_rsp 0 0.
+
+Lemma nth5_hdr c r n l : nth 5 (hdr_bytes c r n ++ l) x00 = n2b c.
+Proof.
+  unfold hdr_bytes. pose proof (be32_length msg_magic) as L.
+  destruct (be32 msg_magic) as [|a1 [|a2 [|a3 [|a4 [|? ?]]]]]; cbn in L; try discriminate L. reflexivity.
+Qed.
+
+Lemma carries_msg_type t s m : carries_msg t s m -> nth 5 s x00 = n2b (code_of t).
+Proof. intros (retry & body & rest & p & ST & _). rewrite ST. apply nth5_hdr. Qed.
+
+Theorem client_unchecked_type_refuted :
+  exists cred peer r,
+    fst (client_decode_g sizeof_addr (fun _ => true) (fun _ => Some mt_undef) (fun t => (t =? mt_dec_rsp)%N)
+           cred peer) = Some r
+    /\ d_err r = 0%N /\ d_uid r = 0%N /\ d_gid r = 0%N /\ d_len r = 0 /\ d_ctx r <> dctx_init
+    /\ forall s m, In s peer -> ~ carries_msg T_DEC_RSP s m.
+Proof.
+  exists ["M"%byte], [nested_attack]. eexists. split; [vm_compute; reflexivity|].
+  repeat split; try discriminate.
+  intros s m [<-|[]] C. apply carries_msg_type in C. vm_compute in C. discriminate.
+Qed.
+
+(* a concrete exchange with the repository's client: the first answer is the nested header, the second a
+   well-formed DEC_RSP; the caller gets the members of the second *)
+Definition example_dec_rsp : bytes :=
+  let body := [x00; x00; x04; x03; x00; x00] ++ be32 300 ++ [x04; x7f; x00; x00; x01] ++ be32 1000 ++ be32 1001
+              ++ be32 42 ++ be32 43 ++ be32 4294967295 ++ be32 4294967295 ++ be32 5 ++ ["h"; "e"; "l"; "l"; "o"]%byte in
+  hdr_bytes mt_dec_rsp 1 (Z.of_nat (length body)) ++ body.
